@@ -165,6 +165,10 @@ func main() {
 		c10child()
 		return
 	}
+	if prop == "C14child" {
+		c14child()
+		return
+	}
 	fs := flag.NewFlagSet("vh", flag.ExitOnError)
 	seed := fs.Uint64("seed", 1, "seed")
 	tier := fs.String("tier", "quick", "quick|thorough")
